@@ -1,7 +1,7 @@
 (* Store/Theorems.v — the statements the property files cite: every script whose merges are given a
    valid iteration order refines the map specification and keeps the invariant; counters are exact;
    reopening (with or without hint files) changes nothing. *)
-From BC Require Import Store.Engine Store.Log Store.Step Store.Cons Store.Inv Store.Refine Store.MergeLemmas Store.Merge.
+From BC Require Import Store.Engine Store.Log Store.Step Store.Cons Store.Inv Store.Refine Store.MergeLemmas Store.Merge Store.Sizes.
 Open Scope N_scope.
 
 Definition op_ready (c : cfg) (s : st) (o : op) : Prop :=
